@@ -596,7 +596,7 @@ class StoreLib(LibBase):
                 ]
                 if p["prio"]:
                     # witness: where the sort put the new request; without a sort call it stayed at the end
-                    pos = c.ghost("pos", lambda: n.ghost["sort_pos"][-1] if n.ghost.get("sort_pos") else o.f[Q].len)
+                    pos = c.ghost("pos", lambda: _insertion_witness(n))
                     pr = c.args["priority"]
                     items.append(Clause("priority-recorded",
                                         lambda c: z3.Select(n.heap_arr(prattr), e.t) == _real(pr), ("C05",)))
@@ -856,8 +856,9 @@ class StoreLib(LibBase):
                 x = o.f[RI].at(q)
                 return [
                     DefRes(x, ("C02", "C06")),
-                    Def(RD, V.list_pop(o.f[RD], lib.pos_rd(o, x.t)), ("C02",)),
-                    Def(RI, V.list_pop(o.f[RI], q), ("C02",)),
+                    # (C06: exactly the item handed out leaves ready_items, so the order of the others is undisturbed)
+                    Def(RD, V.list_pop(o.f[RD], lib.pos_rd(o, x.t)), ("C02", "C06")),
+                    Def(RI, V.list_pop(o.f[RI], q), ("C02", "C06")),
                     Def(RG, V.list_pop(o.f[RG], q), ("C02", "C07")),
                     Def(RE, V.list_pop(o.f[RE], q), ("C02",)),
                 ] + avg_items(c, held(o, p) - 1)
@@ -1301,7 +1302,7 @@ class StoreLib(LibBase):
                 o, n_ = c.old, c.new
                 e = VObj(o.next_id, "event")
                 pr = c.args["priority"]
-                pos = c.ghost("pos", lambda: n_.ghost["sort_pos"][-1] if n_.ghost.get("sort_pos") else o.f[QG].len)
+                pos = c.ghost("pos", lambda: _insertion_witness(n_))
                 oq = o.f[QG]
                 q1 = V.list_insert(oq, pos, e)
                 mid = o.fork()
@@ -2175,6 +2176,16 @@ def _fired_callback(st, fname):
         if fn == fname and any(ev.eq(f) for f in fired):
             return True
     return False
+
+
+def _insertion_witness(st):
+    """callee-side witness of "there is a position at which the new request was inserted": recorded by list.sort()
+    (where it moved the appended element) and list.insert().  An implementation that places the request in some
+    other way has no witness: the unit is then undecided rather than judged against a guessed position."""
+    sp = st.ghost.get("sort_pos")
+    if not sp:
+        raise Unsupported("no witness for the position of the new request (neither sort() nor insert() was used)")
+    return sp[-1]
 
 
 def _spawn_ok(c, gname, pname, value):
